@@ -243,6 +243,39 @@ impl<'a> RoundTrip<'a> {
 		}
 	}
 }
+/// C01: the PMTiles root / leaf directory split.  Bisects the number of tiles at which the writer stops
+/// putting all entries into the root directory and round-trips the sizes around that boundary.
+fn pmtiles_root_boundary(rtp: &RoundTrip, rng: &mut Rng, viol: &mut Vec<V>, stats: &mut BTreeMap<String, u64>, thorough: bool) {
+	let all: Vec<((u8, u32, u32), Vec<u8>)> = { let mut seen = std::collections::HashSet::new(); let mut v = vec![];
+		while v.len() < 5200 { let c = (13u8, rng.below(8192) as u32, rng.below(8192) as u32); if seen.insert(c) { let n = 1 + rng.below(60) as usize; v.push((c, rng.bytes(n))); } } v };
+	let write = |n: usize| -> Option<(Vec<u8>, u64)> {
+		let p = rtp.dir.join("boundary.pmtiles"); let _ = std::fs::remove_file(&p);
+		let mut src = MemSource::new("mem", all[..n].to_vec(), TileFormat::PNG, TileCompression::Uncompressed);
+		match guarded(|| rtp.rt.block_on(write_to_filename(&mut src, p.to_str().unwrap()))) { Ok(Ok(())) => {} _ => return None }
+		let b = std::fs::read(&p).ok()?; let leaf_len = u64::from_le_bytes(b[48..56].try_into().ok()?); Some((b, leaf_len)) };
+	// largest n whose directory is root-only
+	let (mut lo, mut hi) = (1usize, all.len());
+	if write(hi).map_or(true, |w| w.1 == 0) { return; }
+	while hi - lo > 1 { let mid = (lo + hi) / 2; match write(mid) { Some((_, 0)) => lo = mid, _ => hi = mid } }
+	stats.insert("pmtiles_root_only_limit".into(), lo as u64);
+	let around: Vec<usize> = if thorough { (lo.saturating_sub(60)..lo + 120).collect() } else { (lo.saturating_sub(6)..lo + 60).step_by(3).chain(lo.saturating_sub(2)..lo + 3).collect() };
+	for n in around {
+		if n == 0 || n > all.len() { continue; }
+		let desc = format!("pmtiles PNG Uncompressed tiles={n} (root-only limit of this set: {lo} tiles)");
+		*stats.entry("boundary_roundtrips".into()).or_insert(0) += 1;
+		let Some((bytes, _)) = write(n) else { viol.push(V { kind: "write-error".into(), input: desc, detail: "writer failed".into() }); continue; };
+		let expect: crate::indep::TileMap = all[..n].iter().cloned().collect();
+		match crate::indep::dec_pmtiles(&bytes) {
+			Err(e) => viol.push(V { kind: "layout".into(), input: desc.clone(), detail: format!("a decoder written from the published layout cannot read the file: {e:#}") }),
+			Ok(d) => if d.tiles != expect { viol.push(V { kind: "layout-content".into(), input: desc.clone(), detail: "independent decoder recovers a different mapping".into() }); }
+		}
+		match guarded(|| rtp.rt.block_on(versatiles_container::PMTilesReader::open_reader(Box::new(versatiles_core::io::DataReaderBlob::from(bytes.clone()))))) {
+			Ok(Ok(r)) => { for (c, d) in all[..n].iter().step_by(37) { let got = rtp.rt.block_on(r.get_tile_data(&TileCoord3 { x: c.1, y: c.2, z: c.0 })); if !matches!(&got, Ok(Some(b)) if b.as_slice() == d.as_slice()) { viol.push(V { kind: "lookup".into(), input: desc.clone(), detail: format!("tile {:?} is not returned intact", c) }); break; } } }
+			other => viol.push(V { kind: "open-error".into(), input: desc.clone(), detail: format!("written container can not be opened again: {}", match other { Ok(Err(e)) => format!("{e:#}"), Err(m) => m, _ => String::new() }) }),
+		}
+	}
+	let _ = std::fs::remove_file(rtp.dir.join("boundary.pmtiles"));
+}
 fn rle(s: &str) -> String { let mut o = String::new(); let b = s.as_bytes(); let mut i = 0; while i < b.len() { let mut j = i; while j < b.len() && b[j] == b[i] { j += 1; } o.push_str(&format!("{}x{}.", b[i] as char, j - i)); i = j; } o }
 
 pub fn run(ctx: &Ctx, focus: &str) -> Result<()> {
@@ -277,6 +310,7 @@ pub fn run_into(ctx: &Ctx, focus: &str, col: &mut Collector) -> Result<()> {
 		*stats.entry(format!("tiles_{}", match tiles.len() { 0..=9 => "1-9", 10..=199 => "10-199", 200..=9999 => "200-9999", _ => "10000+" })).or_insert(0) += 1;
 	}
 	for l in rtp.lines.borrow().iter() { col.out.line(l); }
+	if focus == "c01" { pmtiles_root_boundary(&rtp, &mut rng, &mut viol, &mut stats, ctx.thorough); }
 	if focus == "c01" { let cs: Vec<(u8, u32, u32)> = all_coords.iter().cloned().take(3000).collect(); crate::pmcorr::lines(col, &mut rng, &cs, ctx.thorough); }
 	let _ = std::fs::remove_dir_all(&dir);
 	for x in &viol { col.violation(&x.kind, &x.input, &x.input, &x.detail); }
